@@ -555,9 +555,18 @@ impl ErasedList {
     /// Both `self` and `other` must have the same element type.
     ///
     pub unsafe fn concat(&self, other: &Self) -> Self {
-        #[cfg(feature = "verif-hooks")]
-        crate::verif::list_lock(std::sync::Arc::as_ptr(&self.0) as usize, "concat#1");
-        let a = self.0.lock().unwrap();
+        // Keep both operands locked for the whole operation, so that the
+        // result is the concatenation of the two lists as they were at one
+        // point in time. If they are the same list there is only one mutex,
+        // which we cannot lock twice.
+        let (a, b) = if Arc::ptr_eq(&self.0, &other.0) {
+            #[cfg(feature = "verif-hooks")]
+            crate::verif::list_lock(std::sync::Arc::as_ptr(&self.0) as usize, "concat#1");
+            (self.0.lock().unwrap(), None)
+        } else {
+            let (a, b) = self.lock_both(other);
+            (a, Some(b))
+        };
 
         let new = Self::new(a.vtable.clone());
         #[cfg(feature = "verif-hooks")]
@@ -567,18 +576,8 @@ impl ErasedList {
         // SAFETY: self and other have the same element type
         unsafe { raw.extend(&a) };
 
-        // This drop is important in the case that self == other
-        // We need to ensure we don't lock the mutex twice
-        drop(a);
-
-        #[cfg(feature = "verif-hooks")]
-        crate::verif::list_lock(std::sync::Arc::as_ptr(&other.0) as usize, "concat#3");
-        let b = other.0.lock().unwrap();
-
         // SAFETY: raw and b have the same element type
-        unsafe { raw.extend(&b) };
-
-        drop(b);
+        unsafe { raw.extend(b.as_deref().unwrap_or(&a)) };
 
         drop(raw);
 
